@@ -1,4 +1,5 @@
 import GoomVerif.Model.Equal
+import GoomVerif.Model.ShareC18
 import Std.Data.String.ToInt
 /-! Specification `goEq` (Go's own equality on the value universe), the domain predicates of C18 and the helper lemmas. -/
 namespace C18L
@@ -443,5 +444,103 @@ theorem resolveTuplesV_wf : ∀ (items : Items) (fixed : List Ty) (elemT : Ty) (
       · contradiction
       · exact toExprFrom_wf cs _ 0 row hrow
     simp [rowsWf, hw, resolveTuplesV_wf rest fixed elemT rs hrs]
+
+/-! ## Shared expression objects -/
+
+/-- Object `id` of the heap is an `AnyExpr` (built by `arg.Any()`, e.g. the exported `arg.AnyValues`). -/
+def IsAny (h : Heap) (id : Nat) : Prop := ∃ o, h[id]? = some o ∧ o.st = .any ∧ o.src = .any
+
+theorem setSt_other (h : Heap) (j id : Nat) (st : OState) (hne : j ≠ id) : (setSt h j st)[id]? = h[id]? := by
+  unfold setSt
+  split
+  · exact List.getElem?_set_ne hne
+  · rfl
+
+theorem compsRow_pres (P : Heap → Prop) (rr : Heap → Nat → Ty → Heap × Res Unit)
+    (hrr : ∀ h id t, P h → P (rr h id t).1) :
+    ∀ (cs : List SComp) (h : Heap) (types : List Ty) (i : Nat), P h → P (compsRow rr h cs types i).1 := by
+  intro cs
+  induction cs with
+  | nil => intro h types i hp; simpa [compsRow] using hp
+  | cons c cs ih =>
+    intro h types i hp
+    unfold compsRow
+    split
+    · exact hp
+    · split
+      · split
+        · exact ih h types (i + 1) hp
+        · exact hp
+      · split
+        · exact ih _ types (i + 1) (hrr _ _ _ hp)
+        · exact hrr _ _ _ hp
+
+theorem itemsRows_pres (P : Heap → Prop) (rr : Heap → Nat → Ty → Heap × Res Unit)
+    (hrr : ∀ h id t, P h → P (rr h id t).1) :
+    ∀ (items : List SItem) (h : Heap) (types : List Ty), P h → P (itemsRows rr h items types).1 := by
+  intro items
+  induction items with
+  | nil => intro h types hp; simpa [itemsRows] using hp
+  | cons it rest ih =>
+    intro h types hp
+    unfold itemsRows
+    split
+    · exact hp
+    · split
+      · exact ih _ types (compsRow_pres P rr hrr _ h types 0 hp)
+      · exact compsRow_pres P rr hrr _ h types 0 hp
+
+theorem resolveObj_pres (id : Nat) : ∀ (fuel : Nat) (h : Heap) (j : Nat) (types : List Ty),
+    IsAny h id → IsAny (resolveObj fuel h j types).1 id := by
+  intro fuel
+  induction fuel with
+  | zero => intro h j types hp; simpa [resolveObj] using hp
+  | succ fuel ih =>
+    intro h j types hp
+    unfold resolveObj
+    split
+    · exact hp
+    · rename_i o ho
+      have hne : o.src ≠ .any → j ≠ id := by
+        intro hs e
+        subst e
+        obtain ⟨o', ho', _, hsrc⟩ := hp
+        rw [ho] at ho'
+        injection ho' with ho'
+        subst ho'
+        exact hs hsrc
+      split
+      · exact hp
+      · rename_i x hsrc
+        have hj := hne (by rw [hsrc]; intro e; cases e)
+        split
+        · split
+          · obtain ⟨o', ho', h2⟩ := hp; exact ⟨o', by rw [setSt_other _ _ _ _ hj]; exact ho', h2⟩
+          · obtain ⟨o', ho', h2⟩ := hp; exact ⟨o', by rw [setSt_other _ _ _ _ hj]; exact ho', h2⟩
+          · exact hp
+        · exact hp
+      · rename_i items hsrc
+        have hj := hne (by rw [hsrc]; intro e; cases e)
+        have hp' := itemsRows_pres (fun h => IsAny h id) (fun h id t => resolveObj fuel h id [t])
+          (fun h j t hp => ih h j [t] hp) items h types hp
+        split
+        · obtain ⟨o', ho', h2⟩ := hp'; exact ⟨o', by rw [setSt_other _ _ _ _ hj]; exact ho', h2⟩
+        · exact hp'
+
+theorem stateS_pres (id : Nat) (fuel : Nat) : ∀ (script : List SStep) (h : Heap), IsAny h id → IsAny (stateS fuel h script) id := by
+  intro script
+  induction script with
+  | nil => intro h hp; exact hp
+  | cons s ss ih =>
+    intro h hp
+    cases s with
+    | resolve j types => exact ih _ (resolveObj_pres id fuel h j types hp)
+    | eval j input => exact ih _ hp
+
+theorem runS_append (fuel : Nat) (h : Heap) (pre post : List SStep) :
+    runS fuel h (pre ++ post) = runS fuel h pre ++ runS fuel (stateS fuel h pre) post := by
+  induction pre generalizing h with
+  | nil => rfl
+  | cons c cs ih => simp [runS, stateS, ih]
 
 end C18L
